@@ -27,6 +27,8 @@
 //   and are canonicalised away after being checked (ts monotone per thread, builtin counter
 //   carries the ts of the matching begin, pid = getpid()).
 #include "common.h"
+#include <pthread.h>
+#include <functional>
 
 #include <cctype>
 #include <chrono>
@@ -161,6 +163,51 @@ static std::string decodeImage(const std::string &b)
   return out;
 }
 
+// The writers run on a thread with a 1 MiB stack: their stack use must not grow with the image (a row buffer is
+// fine, a whole image is not), and "all sizes" includes images larger than a thread's stack.
+struct SmallStackJob { std::function<void()> f; };
+static void *smallStackMain(void *p) { ((SmallStackJob *)p)->f(); return nullptr; }
+static void runOnSmallStack(std::function<void()> f)
+{
+  SmallStackJob job{std::move(f)};
+  pthread_attr_t at;
+  pthread_attr_init(&at);
+  pthread_attr_setstacksize(&at, 1u << 20);
+  pthread_t th;
+  if (pthread_create(&th, &at, smallStackMain, &job) != 0) { job.f(); pthread_attr_destroy(&at); return; }
+  pthread_join(th, nullptr);
+  pthread_attr_destroy(&at);
+}
+
+static std::string writeAndDecode(const std::string &fmt, long sx, long sy, uint32_t *buf)
+{
+  std::string fn = g_dir + "/img";
+  remove(fn.c_str());
+  static_assert(sizeof(math::vec3f) == 12 && sizeof(math::vec3fa) == 16 && sizeof(math::vec4f) == 16,
+      "pixel struct layout");
+  std::string res;
+  runOnSmallStack([&] {
+    try {
+      if (fmt == "ppm") utility::writePPM(fn, (int)sx, (int)sy, buf);
+      else if (fmt == "pgm") utility::writePGM(fn, (int)sx, (int)sy, buf);
+      else if (fmt == "pf") utility::writePFM<float>(fn, (int)sx, (int)sy, (const float *)buf);
+      else if (fmt == "pf3") utility::writePFM<math::vec3f>(fn, (int)sx, (int)sy, (const math::vec3f *)buf);
+      else if (fmt == "pf3a") utility::writePFM<math::vec3fa>(fn, (int)sx, (int)sy, (const math::vec3fa *)buf);
+      else if (fmt == "pf4") utility::writePFM<math::vec4f>(fn, (int)sx, (int)sy, (const math::vec4f *)buf);
+      else res = "bad-op";
+    } catch (const std::exception &) {
+      res = "throw";
+    }
+  });
+  free(buf);
+  if (!res.empty())
+    return res;
+  std::string bytes;
+  if (!readFile(fn, bytes))
+    return "malformed:no-file";
+  return decodeImage(bytes);
+}
+
 static std::string opImage(const std::vector<std::string> &w)
 {
   if (w.size() < 4)
@@ -175,29 +222,31 @@ static std::string opImage(const std::vector<std::string> &w)
   uint32_t *buf = (uint32_t *)malloc(n * 4);
   for (size_t i = 0; i < n; ++i)
     buf[i] = (uint32_t)std::stoul(w[4 + i], nullptr, 16);
-  std::string fn = g_dir + "/img";
-  remove(fn.c_str());
-  static_assert(sizeof(math::vec3f) == 12 && sizeof(math::vec3fa) == 16 && sizeof(math::vec4f) == 16,
-      "pixel struct layout");
-  std::string res;
-  try {
-    if (fmt == "ppm") utility::writePPM(fn, (int)sx, (int)sy, buf);
-    else if (fmt == "pgm") utility::writePGM(fn, (int)sx, (int)sy, buf);
-    else if (fmt == "pf") utility::writePFM<float>(fn, (int)sx, (int)sy, (const float *)buf);
-    else if (fmt == "pf3") utility::writePFM<math::vec3f>(fn, (int)sx, (int)sy, (const math::vec3f *)buf);
-    else if (fmt == "pf3a") utility::writePFM<math::vec3fa>(fn, (int)sx, (int)sy, (const math::vec3fa *)buf);
-    else if (fmt == "pf4") utility::writePFM<math::vec4f>(fn, (int)sx, (int)sy, (const math::vec4f *)buf);
-    else res = "bad-op";
-  } catch (const std::exception &) {
-    res = "throw";
-  }
-  free(buf);
-  if (!res.empty())
-    return res;
-  std::string bytes;
-  if (!readFile(fn, bytes))
-    return "malformed:no-file";
-  return decodeImage(bytes);
+  return writeAndDecode(fmt, sx, sy, buf);
+}
+
+// imgpat <fmt> <w> <h> <seed>: a large image whose words follow a formula known to both sides,
+// word i = ((seed + i) * 2654435761) mod 2^32; observed: FNV-1a digest and length of the decoded text
+static std::string opImagePattern(const std::vector<std::string> &w)
+{
+  if (w.size() != 5)
+    return "bad-op";
+  const std::string &fmt = w[1];
+  long sx = vh::to_ll(w[2]), sy = vh::to_ll(w[3]);
+  unsigned long long seed = vh::to_ull(w[4]);
+  int wordsPerPixel = (fmt == "pf3") ? 3 : (fmt == "pf3a" || fmt == "pf4") ? 4 : 1;
+  size_t n = (size_t)sx * sy * wordsPerPixel;
+  if (sx < 1 || sy < 1 || n > (64u << 20))
+    return "bad-op";
+  uint32_t *buf = (uint32_t *)malloc(n * 4);
+  for (size_t i = 0; i < n; ++i)
+    buf[i] = (uint32_t)(((seed + i) * 2654435761ull) & 0xffffffffull);
+  std::string d = writeAndDecode(fmt, sx, sy, buf);
+  unsigned long long h = 14695981039346656037ull;
+  for (unsigned char ch : d) { h ^= ch; h *= 1099511628211ull; }
+  char hb[32];
+  snprintf(hb, sizeof hb, "%016llx", h);
+  return std::string("digest=") + hb + " len=" + std::to_string(d.size()) + " head=" + d.substr(0, 24);
 }
 
 // ---------------------------------------------------------------------------------------------
@@ -774,6 +823,8 @@ int main(int argc, char **argv)
   auto step = [](const std::vector<std::string> &w) -> std::string {
     if (w[0] == "img")
       return opImage(w);
+    if (w[0] == "imgpat")
+      return opImagePattern(w);
     if (w[0] == "thr" && w.size() >= 2) {
       std::vector<Ev> evs;
       if (!parseProgram(w, 2, evs))
